@@ -268,11 +268,11 @@ func TestShow(t *testing.T) {
 		for _, e := range cur {
 			probe = append(probe, e.K)
 		}
-		w.battery(cur, probe, func(kind, q, shape string, _ []key, want, got any) {
+		w.battery(cur, probe, func(kind, q, shape string, eff []key, want, got any) {
 			if q == "subset" && shape == "key-key" || q == "total" {
 				return
 			}
-			fmt.Printf("    DEV %s %s %s want=%v got=%v\n", kind, q, shape, want, got)
+			fmt.Printf("    DEV %s %s %s keys=%v want=%v got=%v\n", kind, q, shape, eff, want, got)
 		})
 	}
 }
